@@ -48,7 +48,11 @@ def check_call(it, name, fn, args=(), kwargs=None, post=None, raises=None, pre_s
             ctx.oblige(f"{name}.raises_{e.exc}_only_when_specified", terms, {"lineno": e.lineno})
         return None, e.exc
     if post is not None:
-        for cname, term in post(res):
+        try:
+            clauses = post(res)
+        except (KeyError, AttributeError, TypeError, IndexError) as e:
+            raise Unsupported(f"post-condition of {name} does not match the shape of the result ({type(e).__name__}: {e})")
+        for cname, term in clauses:
             ctx.oblige(f"{name}.{cname}", term)
     return res, None
 
